@@ -51,7 +51,8 @@ class EncoderModel:
         if len(szt) != 3:
             raise Broken("Encoder: expected three size_t members (min, max, bytes left), found %d" % len(szt))
         # opener: the method pushing onto the frame list
-        op = {f.key: f for f, k, n in self.writes.get(self.frames, []) if k in ("call:push_back", "call:emplace_back")}
+        op = {f.key: f for f, k, n in self.writes.get(self.frames, []) if k in ("call:push_back", "call:emplace_back") and
+              strip_all_casts(n.get("obj", {})).get("field") == self.frames}
         if len(op) != 1:
             raise Broken("Encoder: expected exactly one method pushing frames, found %d" % len(op))
         self.opener = list(op.values())[0]
@@ -212,16 +213,22 @@ def rule_counter_writers(res, rid, m):
 def rule_frame_stamped(res, rid, m):
     """C09-R2: each push onto the frame list is followed by setSequenceCounter(++counter) on the pushed frame."""
     f = m.opener
-    pushes = [n for ff, k, n in m.writes.get(m.frames, []) if k in ("call:push_back", "call:emplace_back")]
+    pushes = [n for ff, k, n in m.writes.get(m.frames, []) if k in ("call:push_back", "call:emplace_back") and
+              strip_all_casts(n.get("obj", {})).get("field") == m.frames]
     cfg = f.cfg
     for pb in pushes:
         stamps = [c for c in f.calls(CH + "::setSequenceCounter")]
         ok = False
         why = "no setSequenceCounter call after the push"
+        incs = [n for ff, k, n in m.writes.get(m.counter, []) if ff is f and k in ("pre++", "post++")]
         for s in stamps:
             a = strip_all_casts(s["args"][0])
             d_obj, c_obj = depends(f, s["obj"])
             arg_ok = a.get("k") == "un" and a.get("op") == "pre++" and lvalue_root(a["e"]) == m.counter
+            if not arg_ok and a.get("field") == m.counter and len(incs) == 1:
+                # `++counter; stamp(counter)`: the single increment lies between the push and the stamp in the same block
+                bi, bs2 = cfg.block_for(incs[0]), cfg.block_for(s)
+                arg_ok = bi == bs2 == cfg.block_for(pb) and cfg.pos_of[pb["id"]] < cfg.pos_of[incs[0]["id"]] < cfg.pos_of[s["id"]]
             on_frame = m.frames in d_obj and any(x.endswith("::back") for x in c_obj)
             bp, bs = cfg.block_for(pb), cfg.block_for(s)
             after = (bp == bs and cfg.pos_of.get(s["id"], 0) > cfg.pos_of.get(pb["id"], 0)) or (bp != bs and bs in cfg.postdominators().get(bp, set()))
@@ -478,7 +485,7 @@ def rule_batch_order(res, rid, m):
     for f, k, n in m.writes.get(m.frames, []):
         if not (isinstance(n, dict) and n.get("k") == "call" and strip_all_casts(n.get("obj", {})).get("field") == m.frames):
             continue  # element-level access (back().resize …) does not reorder frames
-        okk = k in ("call:push_back", "call:clear", "call:operator=")
+        okk = k in ("call:push_back", "call:emplace_back", "call:clear", "call:operator=")
         res.check(okk, rid, "frames:%s:%s" % (f.name.split("::")[-1], k), n.get("loc") if isinstance(n, dict) else "",
                   "frame list is only appended to / cleared", "frame list is modified by %s in %s: wire order may differ from batch order" % (k, f.name))
 
@@ -496,6 +503,23 @@ def frame_resizes(m):
             elif m.frames in d:
                 out.append((f, c, "frame"))
     return out
+
+
+def max_operands(fn, e):
+    """[x, y] when e computes max(x, y): std::max(x, y) or `x > y ? x : y` (any of the four orientations)."""
+    e = strip_all_casts(e)
+    if e.get("k") == "call" and callee_name(e) == "std::max" and len(e.get("args", [])) == 2:
+        return list(e["args"])
+    if e.get("k") == "cond":
+        c = strip(e["c"])
+        if c.get("k") == "bin" and c.get("op") in (">", ">=", "<", "<="):
+            l, r = facts.xcanon(fn, c["l"]), facts.xcanon(fn, c["r"])
+            a, b = facts.xcanon(fn, e["a"]), facts.xcanon(fn, e["b"])
+            if c["op"] in (">", ">=") and (a, b) == (l, r):
+                return [e["a"], e["b"]]
+            if c["op"] in ("<", "<=") and (a, b) == (r, l):
+                return [e["a"], e["b"]]
+    return None
 
 
 def narrowings(fn, e, limit_bits=64):
@@ -562,15 +586,15 @@ def rule_frames_zeroed_trimmed(res, rid, m):
                       "frame template is sized by %s: not `resize(max, 0)`" % canon(c))
         else:
             nf += 1
-            mx = strip_all_casts(a[0]) if a else {}
-            okmax = mx.get("k") == "call" and callee_name(mx) == "std::max" and len(mx.get("args", [])) == 2
+            mxo = max_operands(f, a[0]) if a else None
+            okmax = mxo is not None
             used = None
             if okmax:
-                d = [depends(f, x)[0] & {m.maxBytes, m.minBytes, m.bytesLeft} for x in mx["args"]]
+                d = [depends(f, x)[0] & {m.maxBytes, m.minBytes, m.bytesLeft} for x in mxo]
                 if d[0] == {m.minBytes} and m.bytesLeft in d[1]:
-                    used = mx["args"][1]
+                    used = mxo[1]
                 elif d[1] == {m.minBytes} and m.bytesLeft in d[0]:
-                    used = mx["args"][0]
+                    used = mxo[0]
                 okmax = used is not None
             res.check(fill0 and okmax, rid, "frame:trim:%s" % f.name.split("::")[-1], c.get("loc"),
                       "frame trimmed to max(used, min) with explicit zero fill",
@@ -588,7 +612,8 @@ def rule_frames_zeroed_trimmed(res, rid, m):
     # trim precedes every push (in the opener) and the return of the finisher
     f = m.opener
     cfg = f.cfg
-    pushes = [n for ff, k, n in m.writes.get(m.frames, []) if k == "call:push_back" and ff is f]
+    pushes = [n for ff, k, n in m.writes.get(m.frames, []) if k in ("call:push_back", "call:emplace_back") and ff is f and
+              strip_all_casts(n.get("obj", {})).get("field") == m.frames]
     direct = {c["id"] for ff, c, kind in rs if ff is f and kind == "frame"}
     trims = [x for x in f.calls() if x["id"] in direct or (m.fb.resolve_call(x) is not None and m.fb.resolve_call(x).rec == ENC and
                                                           m.fb.resolve_call(x) is not f and trims_frame(m, m.fb.resolve_call(x)))]
